@@ -11,6 +11,8 @@ header obeys, see `timeRule_implies_mtpMono`).
 import BV.C14.Lemmas
 import BV.C14.WarnLemmas
 import BV.C14.MtpMono
+import BV.C14.Char
+import BV.C14.Bits
 import BV.C14.Shipped
 import BV.Generated.C14
 namespace BV.C14
@@ -148,6 +150,35 @@ theorem failed_terminal_full_fails :
     [⟨3, 0, 30⟩, ⟨2, 0, 30⟩, ⟨1, 0, 30⟩, ⟨0, 0, 30⟩] (by decide)
   revert this; decide
 
+/-! ### what a reported state certifies about the chain's own history -/
+
+/-- Started ⇒ some boundary block of this chain had median time ≥ start. -/
+theorem started_certifies (net : Net) (d : Dep) (n : Node) (h : bip9State net d n = .started) :
+    ∃ j, 1 ≤ j ∧ j ≤ n.length / net.window ∧ started d (Char.bnd net n j) = true :=
+  Char.started_certifies net d n _ h
+
+/-- Failed ⇒ some boundary block of this chain had median time ≥ timeout. -/
+theorem failed_certifies (net : Net) (d : Dep) (n : Node) (h : bip9State net d n = .failed) :
+    ∃ j, 1 ≤ j ∧ j ≤ n.length / net.window ∧ ended d (Char.bnd net n j) = true :=
+  Char.failed_certifies net d n _ h
+
+/-- LockedIn ⇒ a window of this chain that began Started holds at least `threshold` signalling
+    blocks (top bits 001 and the deployment bit). -/
+theorem lockedIn_certifies (net : Net) (d : Dep) (n : Node) (h : bip9State net d n = .lockedIn) :
+    ∃ j, 1 ≤ j ∧ j ≤ n.length / net.window ∧ winState net d n (j - 1) = .started ∧
+      threshold net d ≤ votes net d (Char.bnd net n j) :=
+  Char.lockedIn_certifies net d n _ h
+
+/-- Active (not forced) ⇒ an earlier window of this very chain reached the vote threshold, and a
+    later boundary satisfied the minimum activation height. No branch can be reported Active on the
+    strength of votes cast on another branch. -/
+theorem active_certifies (net : Net) (d : Dep) (n : Node) (h : bip9State net d n = .active) :
+    ∃ i j, 1 ≤ i ∧ i < j ∧ j ≤ n.length / net.window ∧
+      threshold net d ≤ votes net d (Char.bnd net n i) ∧ eligible d (Char.bnd net n j) = true := by
+  obtain ⟨j, h1, h2, h3, h4⟩ := Char.active_certifies net d n _ h
+  obtain ⟨i, g1, g2, _, g4⟩ := Char.lockedIn_certifies net d n _ h3
+  exact ⟨i, j, g1, by omega, h2, g4, h4⟩
+
 /-! ### next block version -/
 
 /-- `calcNextBlockVersion` (through the caches) computes the Spec's version. -/
@@ -169,6 +200,35 @@ theorem nextVersion_bits (net : Net) (deps : List Dep) (n : Node) (i : Nat) :
   congr 1
   · simp [eq_comm]
   · congr 1; funext d; rw [testBit_mask]; rfl
+
+/-- A header counts as a vote for `d` exactly when bits 31..29 of its version are 001, the
+    deployment's bit number is a real uint32 bit (< 32) and that bit is set. -/
+theorem signals_bits (d : Dep) (h : Hdr) :
+    signals d h = (h.version.testBit 29 && !h.version.testBit 30 && !h.version.testBit 31 &&
+      (decide (d.bit < 32) && h.version.testBit d.bit)) := Bits.signals_bits d h
+
+/-- The unknown-rules checker never counts a bit that the known deployments expect: a block that
+    "signals an unknown rule" on `bit` has no deployment on that bit in state Started/LockedIn for
+    it, and `bit` is not the top-bits bit 29. -/
+theorem expected_bit_never_unknown (net : Net) (deps : List Dep) (bit : Nat) (h : Hdr) (par : Node)
+    (hs : Warn.signals net deps bit (h :: par) = true) :
+    bit < 32 ∧ bit ≠ 29 ∧
+      ∀ d ∈ deps, d.bit = bit → signalling (state net d par) = false := by
+  simp only [Warn.signals, Bool.and_eq_true] at hs
+  obtain ⟨⟨_, hset⟩, hexp⟩ := hs
+  rw [Bits.and_mask_ne_zero] at hset
+  rw [Bits.and_mask_eq_zero] at hexp
+  simp only [Bool.and_eq_true, decide_eq_true_eq] at hset
+  have hb := hset.1
+  simp only [hb, decide_true, Bool.true_and, Bool.not_eq_true'] at hexp
+  rw [nextVersion_bits] at hexp
+  simp only [Bool.or_eq_false_iff, decide_eq_false_iff_not, List.any_eq_false] at hexp
+  refine ⟨hb, hexp.1, ?_⟩
+  intro d hd hdb
+  have := hexp.2 d hd
+  simp only [hdb, hb, decide_true, Bool.and_true] at this
+  unfold signalling
+  simpa using this
 
 /-! ### activation starts with the first block of a window -/
 
